@@ -143,26 +143,7 @@ def rule_3(ctx):
             ok = out.end == 'return' and out.value == want
             got = f'{out.end} {out.value!r}'
         ctx.expect(ok, fn, f'CHOOSE({idx}, a, b, c)', f'CHOOSE({idx},a,b,c) gives {got}, expected {"#VALUE!" if want == "raise" else want!r}')
-    f = _reg(ctx, 'MATCH')
-    fn = f.node
-    # exact hit returns i + 1 where i enumerates the lookup array from 0
-    ok = False
-    for lp in [n for n in walk_local(fn) if isinstance(n, ast.For)]:
-        if isinstance(lp.iter, ast.Call) and isinstance(lp.iter.func, ast.Name) and lp.iter.func.id == 'enumerate' \
-                and len(lp.iter.args) == 1 and isinstance(lp.target, ast.Tuple):
-            i = lp.target.elts[0].id
-            v = lp.target.elts[1].id
-            for n in lp.body:
-                if isinstance(n, ast.If) and isinstance(n.test, ast.Compare) and isinstance(n.test.ops[0], ast.Eq) \
-                        and names_in(n.test) == {v, func_params(fn)[0]}:
-                    r = [s for s in n.body if isinstance(s, ast.Return)]
-                    if r and isinstance(r[0].value, ast.BinOp) and isinstance(r[0].value.op, ast.Add) \
-                            and ast.unparse(r[0].value) in (f'{i} + 1', f'1 + {i}'):
-                        ok = True
-    ctx.expect(ok, fn, 'MATCH exact hit returns position + 1', 'MATCH does not return the 1-based position of the first equal element')
-    nf = last_return(fn)
-    ok = nf is not None and isinstance(nf.value, ast.Call) and ctx.res.resolve(nf.value.func, f.module) == XLERR + 'NaExcelError'
-    ctx.expect(ok, fn, 'MATCH without a hit yields #N/A', 'MATCH does not end in #N/A when nothing matched')
+    # MATCH positions are decided end to end by C15.6 (witness workbook)
     f = _reg(ctx, 'VLOOKUP')
     fn = f.node
     p = func_params(fn)
@@ -181,7 +162,7 @@ def rule_3(ctx):
             isinstance(x, ast.Raise) and is_excel_error_ref(ctx, raise_class(ctx, x)) for x in c.origin.body) for c in conds)
         ctx.expect(col_guard, r, f'VLOOKUP `return {ast.unparse(r.value)[:40]}` only for a column inside the table',
                    'a value is returned without the column-index range check')
-    ctx.floor(12, 'CHOOSE critical points, MATCH position, VLOOKUP guards')
+    ctx.floor(9, 'CHOOSE critical points, VLOOKUP guards')
 
 
 def rule_4(ctx):
@@ -276,10 +257,52 @@ def rule_5(ctx):
     ctx.floor(n, 'criteria x cell values')
 
 
+LOOKUP_CELLS = {
+    'A1': 10, 'A2': 20, 'A3': 20, 'A4': 30, 'B1': 30, 'B2': 20, 'B3': 20, 'B4': 10, 'C1': 1, 'C2': 2, 'C3': 3, 'C4': 4, 'C5': 5,
+    'D1': 'apple', 'D2': 'Pear', 'D3': 'apple', 'D4': 'APPLE', 'D5': 'pear', 'E1': 'ant', 'E2': 'bee', 'E3': 'cat',
+    'M1': '=MATCH(25,A1:A4,1)', 'M2': '=MATCH(25,A1:A4)', 'M3': '=MATCH(15,A1:A4,1)', 'M4': '=MATCH(20,A1:A4,0)', 'M5': '=MATCH(30,A1:A4,0)',
+    'M6': '=MATCH(25,A1:A4,0)', 'M7': '=MATCH(15,B1:B4,-1)', 'M8': '=MATCH(5,A1:A4,1)', 'M9': '=MATCH(35,A1:A4,1)', 'M10': '=MATCH(20,A1:A4,1)',
+    'M11': '=MATCH(25,B1:B4,-1)', 'M12': '=MATCH("bee",E1:E3,0)', 'M13': '=MATCH("BEE",E1:E3,0)', 'M14': '=MATCH("bz",E1:E3,1)', 'M15': '=MATCH(3,C1:C5,1)',
+    'M16': '=MATCH(4.5,C1:C5)', 'M17': '=MATCH(10,A1:A4,0)',
+    'K1': '=COUNTIFS(C1:C5,">1",C1:C5,"<=4",D1:D5,"apple")', 'K2': '=COUNTIFS(C1:C5,">1",D1:D5,"pear")', 'K3': '=COUNTIF(D1:D5,"apple")',
+    'K4': '=COUNTIFS(C1:C5,">=2",C1:C5,"<5",D1:D5,"<>pear",C1:C5,"<>3")', 'K5': '=COUNTIF(C1:C5,3)', 'K6': '=COUNTIF(C1:C5,"<>3")',
+    'K7': '=COUNTIFS(C1:C5,"<4",D1:D5,"apple",C1:C5,">=1")', 'K8': '=COUNTIFS(D1:D5,"=APPLE",C1:C5,">2",C1:C5,"<5",C1:C5,"<>9")', 'K9': '=COUNTIFS(C1:C5,">5")',
+    'K10': '=COUNTIF(C1:C5,">=2.5")', 'K11': '=COUNTIFS(C1:C5,"<=3",C1:C5,">=3",C1:C5,"=3")',
+    'H1': '=CHOOSE(2,"a","b","c")', 'H2': '=CHOOSE(1,A1,A2)', 'H3': '=CHOOSE(3,A1,A2,A4)+1', 'H4': '=CHOOSE(4,"a","b","c")', 'H5': '=CHOOSE(0,"a")',
+}
+LOOKUP_EXPECTED = {
+    'M1': 3, 'M2': 3, 'M3': 1, 'M4': 2, 'M5': 4, 'M6': '#N/A', 'M7': 3, 'M8': '#N/A', 'M9': 4, 'M10': 3, 'M11': 1, 'M12': 2, 'M13': 2, 'M14': 2, 'M15': 3,
+    'M16': 4, 'M17': 1,
+    'K1': 2, 'K2': 2, 'K3': 3, 'K4': 1, 'K5': 1, 'K6': 4, 'K7': 2, 'K8': 2, 'K9': 0, 'K10': 3, 'K11': 1,
+    'H1': 'b', 'H2': 10, 'H3': 31, 'H4': '#VALUE!', 'H5': '#VALUE!',
+}
+
+
+def rule_6(ctx):
+    """A witness workbook, interpreted as written: MATCH (exact, ascending and descending approximate, data with repeated values,
+    keys below, between, on and above the values, texts), COUNTIF / COUNTIFS with one to four criteria over numbers and
+    mixed-case texts, CHOOSE at and beyond its bounds - each cell against the linear scan worked out by hand."""
+    from . import workbook as W
+    from . import scenarios as S
+    from .c10 import _as_value
+    wb = W.Workbook(ctx, LOOKUP_CELLS)
+    for a, w in LOOKUP_EXPECTED.items():
+        fname = LOOKUP_CELLS[a][1:].split('(')[0]
+        anchor = _reg(ctx, fname).node
+        got = wb.value('Sheet1!' + a)
+        if isinstance(got, tuple) and got and got[0] == 'error-class':
+            got = ('error', W.error_code(ctx, got[1]))
+        ctx.expect(S.same(got, _as_value(w)), anchor, f'lookup workbook: {LOOKUP_CELLS[a]}',
+                   f'{a} = {LOOKUP_CELLS[a]} evaluates to {got!r}, expected {w!r} (A = 10, 20, 20, 30; B = 30, 20, 20, 10; C = 1..5; D = apple, Pear, '
+                   'apple, APPLE, pear; E = ant, bee, cat): the result of the linear scan the function stands for')
+    ctx.floor(30, 'lookup / criteria cells')
+
+
 RULES = [
     ('C15.1', 'selectors select (parameter influence on returned values)', rule_1),
     ('C15.2', 'criteria operator table, prefix regex, fallback', rule_2),
     ('C15.3', 'index guards: CHOOSE decision table, MATCH position, VLOOKUP guards dominate returns', rule_3),
     ('C15.4', 'every cell is tested', rule_4),
     ('C15.5', 'criteria decision table on witness criteria and cell values', rule_5),
+    ('C15.6', 'witness workbook: MATCH, COUNTIF(S), CHOOSE against hand-worked linear scans', rule_6),
 ]
